@@ -75,7 +75,32 @@ func genClassFacts() {
 		}
 		return true
 	})
+	// the inherited `new` a class gets is a COPY: in the case clause that retargets it (SetFrame / SetObjectClass), the variable is
+	// first reassigned to its own DeepCopy()
+	copiedFirst := false
+	ast.Inspect(ev.Body, func(n ast.Node) bool {
+		cc, ok := n.(*ast.CaseClause)
+		if !ok {
+			return true
+		}
+		retargets := false
+		for _, st := range cc.Body {
+			if es, ok := st.(*ast.ExprStmt); ok {
+				if c, ok := es.X.(*ast.CallExpr); ok && exprString(c.Fun) == "newMethodT.SetObjectClass" {
+					retargets = true
+				}
+			}
+		}
+		if retargets && len(cc.Body) > 0 {
+			if as, ok := cc.Body[0].(*ast.AssignStmt); ok && len(as.Lhs) == 1 && exprString(as.Lhs[0]) == "newMethodT" && exprString(as.Rhs[0]) == "newMethodT.DeepCopy()" {
+				copiedFirst = true
+			}
+		}
+		return true
+	})
 	b := "namespace RubyTi.Gen\n\n"
+	b += "/-- eval/class.go: the `new` a class inherits is deep-copied BEFORE it is retargeted to the subclass (the ancestor's entry, possibly a configured one, is not written) -/\n"
+	b += "def classNewCopiedBeforeRetarget : Bool := " + leanBool(copiedFirst) + "\n\n"
 	b += "/-- eval/class.go: `isOwnClass` comes from base.LookupDefinedClassFrame, the redirect of a superclass to frame Builtin is guarded by `!isOwnClass`, and the other branch looks the name up lexically -/\n"
 	b += "def superclassOwnClassGuard : Bool := " + leanBool(ownFromLookup && guarded && lexicalElse) + "\n\n"
 	b += "/-- base/t_frame.go getParentMethodTGuarded: the redirects of include/extend edges to frame Builtin, and how many of them test the edge's own frame and exclude names the program defines at top level -/\n"
